@@ -162,7 +162,7 @@ def run(prop, tier, replay=None):
                 print('VIOLATION property=%s replay=(given) clause=%s' % (prop, c))
             return 1 if bad else 0
 
-        model_runs(prop, tier, ev)
+        allowed = model_runs(prop, tier, ev)
         pl = plans(prop, tier)
         sf = prop == 'C16'
         base_cases = [{'kind': k, 'persistent': p, 'ending': e, 'items': it, 'fault': 'none', 'stateful': sf} for (k, p, e, it, f) in pl]
@@ -211,7 +211,12 @@ def run(prop, tier, replay=None):
                                        r['obs']['term_ret'], r['obs']['dead_observed'], r['obs']['reads'][:1], r['obs']['us_end'], r['obs']['stream']),
                                     {'case': r['case']}))
     landed = [r for r in results if r['scn'].get('landed') == 'T']
-    ev.cov['traces_validated_against_impl'] = len(records)
+    checked, unmapped, dr = conformance(results, allowed, prop == 'C16')
+    ev.cov['conformance_checked'] = checked
+    ev.cov['conformance_unmapped'] = unmapped
+    ev.cov['conformance_drift'] = len(dr)
+    drift = dr[:5] + (['... %d more' % (len(dr) - 5)] if len(dr) > 5 else [])
+    ev.cov['traces_validated_against_impl'] = checked - len(dr)
     ev.cov['evaluations'] = len(records)
     ev.cov['distinct_nontrivial'] = len(set((r['scn']['kind'], r['scn']['persistent'], r['scn']['ending'], r['scn']['fault'], r['scn']['file'],
                                              r['scn']['func'], r['scn']['line']) for r in landed))
@@ -224,7 +229,7 @@ def run(prop, tier, replay=None):
         ev.sample({'scn': r['scn'], 'obs': {k: v for k, v in r['obs'].items() if k != 'ctor_s'}})
     ev.assumptions += ['faults are placed at line events (opcode-level landings are not enumerated)',
                        'the child reports its own progress through a marker file (start/fin_enter/fin_done/ret/raise/us_pre/us_post)']
-    return finish(ev, violations, T.s())
+    return finish(ev, violations, T.s(), drift)
 
 
 def _strip(r):
@@ -241,9 +246,131 @@ def _strip(r):
 
 
 def model_runs(prop, tier, ev):
-    """TLC on the behavioural model (OneShot.tla) - see spec/OneShot.tla; filled in by oneshot_model"""
-    try:
-        from . import _oneshot_model
-    except ImportError:
-        return
-    _oneshot_model.run(prop, tier, ev)
+    """TLC on the behavioural model (OneShot.tla); returns the ALLOWED relation label -> outcomes"""
+    from . import _oneshot_model
+    return _oneshot_model.run(prop, tier, ev)
+
+
+# ---------------------------------------------------------------------------------------------
+# conformance: where the agent says the fault landed -> label(s) of OneShot.tla -> allowed outcomes
+# ---------------------------------------------------------------------------------------------
+_AST = {}
+
+
+def anchor_regions(kind):
+    """line -> region of the run loop of the current tree (never hard-coded line numbers)"""
+    import ast
+    from ..common import REPO
+    if kind in _AST:
+        return _AST[kind]
+    fn = {'thread': 'thread.py', 'process': 'process.py', 'remote': 'remote.py'}[kind]
+    name = '_run_backend' if kind == 'remote' else '_run'
+    tree = ast.parse(open(os.path.join(REPO, 'pyworkers', fn)).read())
+    f = [n for n in ast.walk(tree) if isinstance(n, ast.FunctionDef) and n.name == name][0]
+    reg = {}
+
+    def span(nodes, tag):
+        for n in nodes:
+            for ln in range(n.lineno, n.end_lineno + 1):
+                reg[ln] = tag
+    outer = [n for n in f.body if isinstance(n, ast.Try)][0]
+    for ln in range(f.lineno, outer.lineno):
+        reg[ln] = 'pre'
+    reg[outer.lineno] = 'tryline'
+    if kind == 'remote':
+        span(outer.body, 'outer_try')
+        inner = [n for n in outer.body if isinstance(n, ast.Try)][0]
+        span(inner.body, 'try')
+        for h in inner.handlers:
+            span([h], 'handler')
+        span(inner.finalbody, 'finally')
+        for h in outer.handlers:
+            span([h], 'outer_handler')
+        span(outer.finalbody, 'outer_finally')
+    else:
+        span(outer.body, 'try')
+        for h in outer.handlers:
+            span([h], 'handler')
+        span(outer.finalbody, 'finally')
+    _AST[kind] = reg
+    return reg
+
+
+def model_labels(r):
+    s = r['scn']
+    w = r.get('where') or {}
+    kind, pers = s['kind'], s['persistent'] == 'T'
+    if s['fault'] == 'bigkill':
+        return {'c_put2'}, 'sigkill'
+    fault = 'pause' if s['fault'] == 'pause' else 'sigkill'
+    stack = w.get('stack') or []
+    funcs = [f[1] for f in stack]
+    anchor_name = '_run_backend' if kind == 'remote' else '_run'
+    aline = next((f[2] for f in reversed(stack) if f[1] == anchor_name), None)
+    region = anchor_regions(kind).get(aline, 'unknown')
+    if s['in_target'] == 'T':
+        return ({'l_run'} if pers else {'work'}), fault
+    after = s['target_finished'] == 'T' or (pers and s['in_work'] == 'F' and s['target_started'] == 'T')
+    if 'do_work' in funcs:
+        if pers:
+            return ({'l_inc', 'l_send'} if '_send_result' in funcs else {'l_recv', 'l_run', 'l_inc', 'l_send'}), fault
+        return ({'work'} if not after else {'work', 't_store', 'c_put', 'b_wrap'}), fault
+    init = {'thread': {'t_init'}, 'process': {'c_init'}, 'remote': {'b_init'}}[kind]
+    store = {'thread': {'t_store'}, 'process': {'c_put', 'c_put2'}, 'remote': {'b_wrap'}}[kind]
+    table = {
+        'thread': {'tryline': {'t_try'}, 'handler': {'h_log', 'h_store'}, 'finally': {'f_cleanup'}},
+        'process': {'handler': {'h_log', 'h_put'}, 'finally': {'f_cleanup', 'f_rel', 'f_close'}},
+        'remote': {'handler': {'ih_log', 'ih_store'}, 'finally': {'if_rel', 'if_join'}, 'outer_handler': {'oh_store', 'oh_resend'},
+                   'outer_finally': {'of_cleanup', 'of_send', 'of_sendus', 'of_close'}},
+    }[kind]
+    if region == 'try':
+        if pers and s['items'] == 0:
+            return init | store, fault
+        return (store if after else init), fault
+    return table.get(region, set()), fault
+
+
+def real_triple(r):
+    o = r['obs']
+    rd = o['reads'][0] if o['reads'] else None
+    if rd is None:
+        return None
+    if 'raised' in (rd['has_error'], rd['result'], rd['error']):
+        seen = 'RAISES'
+    elif rd['has_error'] == 'F':
+        seen = 'ok'
+    elif rd['has_error'] == 'None':
+        seen = 'None'
+    elif rd['error'] == 'WTE':
+        seen = 'WTE'
+    elif rd['error'] == 'own':
+        seen = {'exc': 'E', 'bexc': 'BE', 'unreb': 'UNREB'}.get(r['scn']['ending'], 'E')
+    else:
+        seen = 'ErrNone'
+    return (seen, o['us_end'], o['stream']['end'])
+
+
+def conformance(results, allowed, stateful):
+    """-> (checked, drift list)"""
+    checked, unmapped, drift = 0, 0, []
+    for r in results:
+        if r['scn'].get('landed') != 'T' or r['obs']['dead_observed'] != 'T':
+            continue
+        labels, fault = model_labels(r)
+        s = r['scn']
+        al = set()
+        for lab in labels:
+            al |= allowed.get((s['kind'], s['persistent'], s['ending'], fault, lab), set())
+        if not al:
+            unmapped += 1
+            continue
+        t = real_triple(r)
+        if t is None:
+            continue
+        checked += 1
+        ok = any(t[0] == a[0] and (not stateful or t[1] == a[1]) and (t[2] == a[2]) for a in al)
+        if not ok:
+            drift.append('%s%s ending=%s fault=%s at %s:%s line %s -> model labels %s allow %s, real %s'
+                         % ('persistent ' if s['persistent'] == 'T' else '', s['kind'], s['ending'], s['fault'], s['file'], s['func'], s['line'],
+                            sorted(labels), sorted(al), t))
+    return checked, unmapped, drift
